@@ -45,6 +45,14 @@ o 240202#B2 b todo to move %bob
 {H2R} B Sec hv0
 
 - 240203#B3 in b section
+
+{"+" * 16} B Deep #deep
+
+- 240204#B4 under h3
+
+{"-" * 8} B Deeper
+
+o P2 240205#B5 under h4 key::three
 """,
     # no note of this page has a property; its last note is the only carrier of +rocket
     "t.zo": """# T page
